@@ -38,6 +38,14 @@ type SrvJoiner struct {
 	KeepLatest bool `json:"keeplatest,omitempty"`
 }
 
+// SrvLateTx is submitted to validator Node BeforeMS before a proposal is due.
+type SrvLateTx struct {
+	Op       Op  `json:"op"`
+	Node     int `json:"node"`
+	BeforeMS int `json:"before_ms"`
+	Height   int `json:"height"` // after this block
+}
+
 // SrvPart isolates the nodes of Mask from all others for an interval.
 type SrvPart struct {
 	Mask   uint16 `json:"mask"`
@@ -74,6 +82,9 @@ type SrvPlan struct {
 	// workload
 	Txs     []NetTx `json:"txs,omitempty"`
 	MaxTxPB int     `json:"max_tx_per_block,omitempty"`
+	// Late: transactions that reach exactly one validator a few milliseconds before the next proposal is due, so that the
+	// other validators have to fetch them when they get the proposal (Server.RequestTx, getdata, the consensus callback)
+	Late []SrvLateTx `json:"late,omitempty"`
 	// NoCompress: node (index+1) that runs with P2P.DisableCompression; Direct: nodes whose RPC server relays a
 	// submitted transaction directly (RPC.DirectRelay: the transaction itself is broadcast, not its hash)
 	NoCompress int    `json:"no_compress,omitempty"`
@@ -176,6 +187,9 @@ func drawSrv(rt *rapid.T, p *Plan, prop, tier string) *Plan {
 		if prop == "C20" && i == 0 && rapid.IntRange(0, 2).Draw(rt, "srv_jkind20") != 0 {
 			j.Kind = 1
 		}
+		if os.Getenv("VERIF_SRV_STATESYNC") == "0" {
+			j.Kind = 0 // (measuring aid: no state-synchronising joiner)
+		}
 		j.AtMS = rapid.IntRange(4, 14).Draw(rt, "srv_jat")*1000 + 137
 		if rapid.IntRange(0, 2).Draw(rt, "srv_jrestart") == 2 {
 			j.RestartMS = rapid.IntRange(1, 40).Draw(rt, "srv_jrestart_ms")*100 + 29
@@ -218,6 +232,11 @@ func drawSrv(rt *rapid.T, p *Plan, prop, tier string) *Plan {
 			t.Defect = rapid.IntRange(1, numDefects-1).Draw(rt, "srv_defect")
 		}
 		sp.Txs = append(sp.Txs, t)
+	}
+	nl := rapid.IntRange(0, 6).Draw(rt, "srv_nlate")
+	for i := 0; i < nl; i++ {
+		sp.Late = append(sp.Late, SrvLateTx{Op: Op{Kind: OpTransferGAS, A: rapid.IntRange(0, numAccounts-1).Draw(rt, "srv_la"), B: rapid.IntRange(0, numAccounts-1).Draw(rt, "srv_lb"), N: int64(1 + i), X: 1},
+			Node: rapid.IntRange(0, sp.Validators-1).Draw(rt, "srv_lnode"), BeforeMS: rapid.IntRange(1, 150).Draw(rt, "srv_lbefore"), Height: rapid.IntRange(2, 16).Draw(rt, "srv_lheight")})
 	}
 	if rapid.IntRange(0, 3).Draw(rt, "srv_wirecfg") == 3 {
 		sp.NoCompress = rapid.IntRange(0, total0).Draw(rt, "srv_nocompress")
